@@ -11,7 +11,7 @@ import random
 NAMES = ['a', 'b', 'c', 'x', 'y', 'z', 'foo', 'bar', 'baz', 'item', 'items', 'value', 'values', 'n', 'i', 'j', 'k', 'total', 'acc', 'obj', 'data', 'flag', 'name_', 'idx']
 ATTRS = ['x', 'y', 'size', 'name', 'value', 'items', 'next', 'parent', 'count']
 FUNCS = ['f', 'g', 'h', 'make', 'run', 'calc', 'len', 'print', 'range', 'str', 'int']
-CLASSES = ['A', 'B', 'C', 'Base', 'Node', 'Item', 'Exception', 'ValueError']
+CLASSES = ['A', 'B', 'C', 'Base', 'Node', 'Item', 'object', 'mod.Mixin', 'Exception', 'ValueError']
 TYPES = ['int', 'str', 'float', 'bool', 'A', 'B', 'Node']
 MODS = ['os', 'typing', 'a.b', 'pkg.mod', 'x.y.z']
 COMP_OPS = ['<', '>', '==', '>=', '<=', '!=', 'in', 'not in', 'is', 'is not']
